@@ -327,6 +327,7 @@ for _ty, _bits in DBITS.items():
             if f >= 2 ** bits: return OK(D(0))
             return OK(D(it.ctx.div(at, f)))
         MODELS[P + 'from_atomics'] = from_atomics
+        MODELS[P + 'from_atomics::<impl Into>'] = from_atomics
         def dchecked(it, r, op):
             if it.ctx.branch(in_range(r, bits), 'checked'): return OK(D(r))
             return ERR(err_overflow(op))
